@@ -92,7 +92,9 @@ class VLoop(asyncio.BaseEventLoop):
                             break
             except TypeError:  # unhashable callback owner
                 own = None
-            return (name, own)
+            # plain data handed to the callback (a datagram to re-send, an address, a sequence number) tells two pending timers apart
+            plain = tuple(repr(a)[:80] for a in (h._args or ()) if isinstance(a, (bytes, bytearray, int, str, tuple, float, bool, type(None))))
+            return (name, own, plain) if plain else (name, own)
 
         ready = tuple(one(h) for h in self._ready if not h._cancelled)
         timers = tuple(sorted((round(h._when - self._vt, 6), one(h)) for h in self._scheduled if not h._cancelled))
